@@ -115,6 +115,7 @@ func cmdCheck(args []string) int {
 		fmt.Printf("HARNESS-ERROR property=%s load: %v\n", *prop, err)
 		return 2
 	}
+	eng.prop = *prop
 	loadS := time.Since(t0).Seconds()
 
 	// select work
